@@ -524,6 +524,38 @@ pub fn gen_c17_corpus(args: &[String]) -> i32 {
             push(ev, &b, pool[3 % pool.len()], &mut lines);
         }
     }
+    // long tokens: buffers, caps and number types chosen by cfg show at token lengths just past what the
+    // narrowest evaluator of a build needs (19-20 digits for i64, 28-29 for decimal, 308-309 for doubles)
+    for ev in crate::val::ALL_EV {
+        let ph = ph_pool(ev)[0];
+        for n in [17usize, 18, 19, 20, 21, 28, 29, 30, 31, 40, 100, 308, 309, 310, 320] {
+            let sup_zeros: String = "⁰".repeat(n);
+            let sup_ones: String = "¹".repeat(n);
+            let zeros = "0".repeat(n);
+            let nines = "9".repeat(n);
+            let mut v = vec![
+                format!("2{}³", sup_zeros),
+                format!("2{}²+1", sup_zeros),
+                format!("1{}", sup_ones),
+                format!("(1+1){}²", sup_zeros),
+                format!("{}7", zeros),
+                format!("{}7+1", zeros),
+                nines.clone(),
+                format!("1{}", zeros),
+                format!("{}(2{})", " ".repeat(n), "\t".repeat(n)),
+                format!("{}1{}", "(".repeat(n.min(60)), ")".repeat(n.min(60))),
+                format!("max({})", vec!["1"; n.min(120)].join(",")),
+            ];
+            if ev != Ev::I64 {
+                v.push(format!("0.{}1", zeros));
+                v.push(format!("1.{}", nines));
+                v.push(format!("{}.5", nines));
+            }
+            for e in v {
+                push(ev, &e, ph, &mut lines);
+            }
+        }
+    }
     // arithmetic on long operands: which algorithms the dependencies were built with (their own cargo
     // features) shows in the last digits of quotients, remainders, products and elementary functions
     let long_lit = |rng: &mut Rng, ev: Ev| -> String {
@@ -559,7 +591,8 @@ pub fn gen_c17_corpus(args: &[String]) -> i32 {
         push(ev, &f, ph_pool(ev)[0], &mut lines);
     }
     // random part
-    while lines.len() < n + n_long {
+    let fixed = lines.len();
+    while lines.len() < fixed + n {
         for ev in crate::val::ALL_EV {
             let pool = ph_pool(ev);
             let leaf = hostile_leaf(ev);
